@@ -23,7 +23,7 @@ import psvlib
 SOLVERS = {0: "nnls_lawson_hanson(normaleq=1)", 1: "nnls_normal_block", 2: "nnls_normal_block_updown",
            3: "nnls_normal_block3", 4: "nnls_lawson_hanson(normaleq=0)"}
 KINDS = {0: "dense dyadic Gram", 1: "sparse dyadic Gram", 2: "degenerate (exact zeros, ties)", 3: "badly scaled 1e+-6",
-         4: "arbitrary doubles", 5: "large sparse", 6: "least-squares form"}
+         4: "arbitrary doubles", 5: "large sparse", 6: "least-squares form", 7: "extremely scaled (D over 1e+-6), Cholesky-based solvers only"}
 
 
 def dbl(u): return struct.unpack("d", struct.pack("Q", int(u)))[0]
